@@ -192,7 +192,9 @@ SegRules(t, sa, inv, lcp, minLen, maxLen, cbs, pairwise) ==
 (*            introsort thresholds (informational: DRIFT.* rules)          *)
 (*  suffixstages  t, sa and the arrays s4, s5, s6 the sort driver holds     *)
 (*            between its stages (verif hook VerifStage), compared with    *)
-(*            the stage model DivSufSort.tla (informational DRIFT rules)     *)
+(*            the stage model DivSufSort.tla (informational DRIFT rules),  *)
+(*            rounds = the ranks at the start of every doubling round of   *)
+(*            the rank sort (TrSortRounds.tla)                             *)
 (*  segments  t, sa, lcp, minlen, maxlen, cbs (callbacks in call order)    *)
 (***************************************************************************)
 (* ---- the stages of the sort driver against the stage model ---- *)
@@ -201,10 +203,13 @@ RECURSIVE MaxByte(_, _, _)
 MaxByte(t, i, acc) == IF i > Len(t) THEN acc ELSE MaxByte(t, i + 1, IF t[i] > acc THEN t[i] ELSE acc)
 
 StageRules(e) ==
-  LET t  == e.t
-      n  == Len(t)
-      sg == MaxByte(t, 1, 0) + 1
-  IN IF n < 3 \/ n > 40 \/ sg > 4 THEN {}
+  LET n  == Len(e.t)
+      \* the driver only compares bytes: an order-preserving renaming of the
+      \* alphabet keeps every array the same and the bucket tables small
+      bytes == { e.t[i] : i \in 1..n }
+      t  == TLCEval([i \in 1..n |-> Cardinality({ b \in bytes : b < e.t[i] })])
+      sg == Cardinality(bytes)
+  IN IF n < 3 \/ n > 200 \/ sg > 48 THEN {}
      ELSE LET r   == TLCEval(DSS!Run(t, sg, "code"))
               m   == r.m
               pos == r.cl.pos                        \* B* positions in text order, pos[l + 1] for index l
@@ -215,8 +220,11 @@ StageRules(e) ==
                                         ELSE IF u[k] # v[k] THEN u[k] < v[k] ELSE le(k + 1)
                            IN le(1)
               Dec(x) == IF x < 0 THEN -x - 1 ELSE x  \* ^x marks "equal to the substring in front"
-              SubRank(l) == Cardinality({ k \in 0..m - 1 : Leq(Sub(k), Sub(l)) }) - 1
-              SufRank(l) == Cardinality({ k \in 0..m - 1 : DSS!SufLess(t, pos[k + 1], pos[l + 1]) })
+              subF == TLCEval([l \in 0..m - 1 |-> Sub(l)])
+              subRankF == TLCEval([l \in 0..m - 1 |-> Cardinality({ k \in 0..m - 1 : Leq(subF[k], subF[l]) }) - 1])
+              sufRankF == TLCEval([l \in 0..m - 1 |-> Cardinality({ k \in 0..m - 1 : DSS!SufLess(t, pos[k + 1], pos[l + 1]) })])
+              SubRank(l) == subRankF[l]
+              SufRank(l) == sufRankF[l]
           IN {
        (* stage contracts of the two sorting engines (ssort, trSort) *)
        <<"DRIFT09.stage1_substrings",
@@ -224,10 +232,26 @@ StageRules(e) ==
            /\ Len(e.s1) = m
            /\ { Dec(e.s1[i]) : i \in 1..m } = 0..m - 1
            /\ e.s1[1] >= 0
-           /\ \A i \in 2..m : /\ Leq(Sub(Dec(e.s1[i - 1])), Sub(Dec(e.s1[i])))
-                               /\ (e.s1[i] < 0 <=> Sub(Dec(e.s1[i - 1])) = Sub(Dec(e.s1[i])))>>,
+           /\ \A i \in 2..m : /\ Leq(subF[Dec(e.s1[i - 1])], subF[Dec(e.s1[i])])
+                               /\ (e.s1[i] < 0 <=> subF[Dec(e.s1[i - 1])] = subF[Dec(e.s1[i])])>>,
        <<"DRIFT09.stage2_ranks",
          (e.m = m /\ m > 0) => (Len(e.s2) = 2 * m /\ \A l \in 0..m - 1 : e.s2[m + l + 1] = SubRank(l))>>,
+       (* the rank sort, round by round (TrSortRounds.tla): at the start of   *)
+       (* round k (depth 2^(k-1)) the ranks never contradict the true order,  *)
+       (* are group maxima, and members of a group share `depth` substring    *)
+       (* ranks with the reads at x + depth inside the array                  *)
+       <<"DRIFT09.round_contract",
+         (e.m = m /\ m > 0) =>
+           \A k \in 1..Len(e.rounds) :
+             LET f  == e.rounds[k]
+                 dk == 2 ^ (k - 1)
+             IN /\ Len(f) = m
+                /\ \A x, y \in 0..m - 1 : f[x + 1] < f[y + 1] => SufRank(x) < SufRank(y)
+                /\ \A x \in 0..m - 1 : f[x + 1] = Cardinality({ y \in 0..m - 1 : f[y + 1] <= f[x + 1] }) - 1
+                /\ \A x, y \in 0..m - 1 :
+                     (x # y /\ f[x + 1] = f[y + 1]) =>
+                        /\ x + dk < m /\ y + dk < m
+                        /\ \A j \in 0..dk - 1 : SubRank(x + j) = SubRank(y + j)>>,
        <<"DRIFT09.stage3_bstar_order",
          (e.m = m /\ m > 0) => (Len(e.s3) = 2 * m /\ \A l \in 0..m - 1 : e.s3[m + l + 1] = SufRank(l))>>,
        <<"DRIFT09.stage_m", e.m = r.m>>,
